@@ -385,7 +385,7 @@ pub(crate) mod verif_timer {
         hist_proof!(hist_c01_n5_check, CheckLock, 5, P01, 7);
 
         #[kani::proof]
-        #[kani::unwind(7)]
+        #[kani::unwind(10)]
         fn delay_full_range() { delay_check(&mut KaniSrc, P15); }
 
         macro_rules! step_proof {
